@@ -280,6 +280,16 @@ def run(ck, prog, tier, load):
             continue
         g = guarded_by(me, bb, lambda c, lab: bool(bool_test(c, lab)) and bool_test(c, lab)[0][0] == "arg" and bool_test(c, lab)[0][1] in HEADP and bool_test(c, lab)[1] is False)[0]
         ck.ob("C02-c.head-has-no-body", "MessageEncoder::encode|%s" % k, g, me, bb, "TransferEncoding::%s only on the !head edge (HEAD responses get the empty encoder)" % k)
+    # the framing of the body follows the declared size: Sized(n) -> Length(n) (cut to / checked against n), Stream ->
+    # chunked or read-to-close, None -> empty. Assuming each size variant, only its constructors are reachable.
+    ALLOWED = {"Sized": {"length", "empty"}, "Stream": {"chunked", "eof", "empty"}, "None": {"empty"}}  # `empty` also serves HEAD and bodiless statuses
+    for variant, allowed in ALLOWED.items():
+        def not_variant(c, lab, variant=variant):
+            return c[0] == "discr" and (c[2] or "").endswith("BodySize") and not label_may_be(lab, variant)
+        r_, _rem = reach_under(me, [not_variant])
+        got = sorted({k for bb, k in ctors if bb in r_})
+        ck.ob("C02-c.encoder-follows-size", variant, bool(got) and set(got) <= allowed and (variant != "Sized" or "length" in got), me, next((bb for bb, k in ctors if bb in r_ and k not in allowed), None),
+              "assuming the body size is BodySize::%s the transfer encoder constructed is one of %s (got %s): a sized body is cut to, and checked against, its declared length" % (variant, sorted(allowed), got))
     # per status: assuming status == s, no body-carrying transfer encoder may be constructed
     def status_is(s):
         def p(c, lab):
@@ -401,6 +411,9 @@ def run(ck, prog, tier, load):
     # write buffer is also an interleaved / non-self-delimiting response stream)
     from .c04 import flush_accounting
     flush_accounting(ck, prog, "C02-f")
+    # the connection future gives up with the stored error only after every dispatched request has been answered
+    from .c04 import error_exit
+    error_exit(ck, prog, "C02-e")
     # pipelined requests are answered in the order they were decoded: the queue is used strictly first-in first-out
     qm = method_calls_on_field(prog, r"\.actix_http::h1::dispatcher::(InnerDispatcher|__InnerDispatcherProjection|_::__InnerDispatcherProjection|[A-Za-z_:]*Projection)\.messages$|InnerDispatcher[A-Za-z_]*\.messages$", ["actix_http"])
     ck.anchor("C02-e", len([1 for q in qm if q[3] == "push_back"]), 1, "messages.push_back in the h1 dispatcher")
